@@ -160,6 +160,10 @@ def enumerate_cases(ctx: Ctx) -> list:
                     cases.append(mk(U(g), m(2, ent[name]), lvl))
         for g in C['u2']:
             cases.append(mk(U(g), m(2, K.GS_ZX), 1))
+        # CNOT+H+T: direct synthesis did not end within 600 CPU-seconds even
+        # for CNOT itself (search over H,T words); three probes only
+        for g in (['identity', 2, 2], ['perm', [0, 1, 3, 2]],
+                  ['prod2', ['HI']]):
             cases.append(mk(U(g), m(2, K.GS_CONST), 1))
         for g in C['perms2'][:: 3] + C['diags'][:: 3] + C['near'] + \
                 C['prods'][:: 6] + [['identity', 2, 2], ['generic', 2, 2, 0]]:
@@ -184,7 +188,10 @@ def enumerate_cases(ctx: Ctx) -> list:
                 or s[:3] == ['basis', 2, 2] or s == ['bell']
         for lvl in (1, 2, 3, 4):
             for s in states(3):
-                if lvl in (1, 4) or small(s):
+                one_qubit = len(s) > 1 and s[1] == 1
+                if lvl in (1, 4) or (small(s) and (
+                        lvl == 2 or one_qubit or s in (
+                            ['basis', 2, 2, 0], ['basis', 2, 2, 3]))):
                     cases.append(mk(S(s), None, lvl))
             for s in [['basis', 1, 3, 2], ['plus', 2, 3], ['plus', 1, 3],
                       ['basis', 2, 3, 4]]:
